@@ -111,7 +111,7 @@ PROPS = {
     },
     "C04": {
         "thm": "SameVerif.Thm.C04",
-        "suites": ["asmseq", "asmscen", "sigc01", "signear", "sigseq"],
+        "suites": ["asmseq", "asmscen", "sigc01", "signear", "sigseq", "siglong"],
         "spec_filter": r"^spec\.(asm c04|sig c04|sig nosom) ",
         "technique": "Lean 4 invariant over all assembler operation histories (every reported message is `combine` of a run of <= 3 consecutive bursts of the log) + theorem that `combine` only reports bytes backed by two agreeing bursts or the bitwise majority of three; correspondence at hook and signal level; evidence oracle on every event trace",
         "level_text": "Proved in Lean: for ALL burst sets, a decoded header has every byte equal (after MSb masking) in two bursts or the bitwise majority of three, needs two bursts covering every reported position, a single burst or a pair disagreeing on the first byte never decodes, an end-of-message estimate begins NN; and over ALL operation histories with non-decreasing ticks the assembler model only ever reports `combine` of a run of at most three consecutive bursts of its burst log (invariant with init/idle/assemble preservation). The models are tied to the real combiner/Assembler through the hook and, in situ, to the real receiver's tapped streams; the evidence oracle (independent of the models) judges the complete event trace of every scenario and every signal case, including a near-miss library (silence, noise, tones, programme, wrong-baud and preamble-less FSK, preamble only, lone bursts, disagreeing bursts, prefixes with 3+ bit errors).",
